@@ -253,6 +253,19 @@ pub fn run(rep: &mut Report) {
         el.dedup();
         sweep(rep, &format!("c20.to_tow[{}]", scale_name(ts)), el.len() as u64, |i, out| j_to_tow(ts, el[i as usize], out));
     }
+    // interior scan (round 8): evenly spread, unremarkable (week, nanosecond of week) pairs and epoch counts
+    {
+        let nsc: u64 = if q { 1_500_000 } else { 20_000_000 };
+        rep.bound("interior_scan_points", nsc);
+        sweep(rep, "c20.scan_from_tow", 9 * (nsc / 4), |i, out| {
+            let k = i / 9;
+            let w = if k % 4 == 3 { lattice::scan_point(k, 0, 0, max_w as i128) } else { lattice::scan_point(k, 1, 0, 20_000) } as u32;
+            let n = if k % 8 == 7 { lattice::scan_point(k, 2, 0, u64::MAX as i128) } else { lattice::scan_point(k, 3, 0, WEEK - 1) } as u64;
+            j_from_tow(w, n, SCALES[(i % 9) as usize], out)
+        });
+        sweep(rep, "c20.scan_to_tow", 9 * (nsc / 4), |i, out| j_to_tow(SCALES[(i % 9) as usize], if (i / 9) % 2 == 0 { lattice::scan_point(i / 18, 4, 0, 100 * NPC) } else { lattice::scan_magnitude(i / 9, 5, 0, 76).abs().min(DMAX) }, out));
+        sweep(rep, "c20.scan_counter", 4 * (nsc / 4), |i, out| j_counter((i % 4) as usize, if (i / 4) % 2 == 0 { lattice::scan_point(i / 8, 0, 0, NPC - 1) } else { lattice::scan_point(i / 8, 1, 0, u64::MAX as i128) } as u64, out));
+    }
     let cs: Vec<u64> = vec![0, 1, 999_999_999, NS_DAY as u64, WEEK as u64, 1 << 53, NPC as u64 - 1, NPC as u64, NPC as u64 + 1, 1 << 62, 1 << 63, (1 << 63) + 1, 2 * NPC as u64, 5 * NPC as u64 + 7, u64::MAX - 1, u64::MAX];
     sweep(rep, "c20.counter", 4 * cs.len() as u64, |i, out| j_counter((i % 4) as usize, cs[(i / 4) as usize], out));
     // order independence (depth-2 operation sequences on one thread): time of week both ways, counters, day of year
